@@ -24,10 +24,22 @@ struct C20 : Prop {
 		cfg::World w = cfg::gen_world(r, o);
 		for (auto &t : w.trains) for (auto &p : t.periphs) if (p.bit >= 5 && p.bit < 8) p.bit = (uint8_t) (p.bit + 8);
 		for (auto &t : w.trains) { std::set<int> seen; for (auto it = t.periphs.begin(); it != t.periphs.end();) { if (seen.count(it->bit)) it = t.periphs.erase(it); else { seen.insert(it->bit); ++it; } } if (!t.calibration.empty() && t.periphs.empty()) t.calibration.clear(); }
+		// one board with more features than fit into one response budget (8 FEATURE_SET = 48 bytes of answers): the rest is deferred
+		// and released by the receiver while the start-up waits for the confirmations
+		bool many = r.chance(250);
+		if (many) {
+			std::vector<cfg::Board *> pb; for (auto &b : w.boards) if (b.present) pb.push_back(&b);
+			cfg::Board *b = pb[r.below(pb.size())];
+			std::set<int> fu; for (auto &f : b->features) fu.insert(f.first);
+			int want = (int) r.range(9, 14);
+			while ((int) b->features.size() < want) { int num = (int) r.range(0, 120); if (fu.count(num)) continue; fu.insert(num); b->features.push_back({(uint8_t) num, r.byte()}); }
+		}
 		cfg::install(plan, w, r);
 		// answer faults: delays / chunking only (a lost answer would leave the start-up waiting: it has no timeouts)
 		{
 			J bus = plan["bus"]; J af = J::arr();
+			// a slow node: from the n-th feature confirmation on every one is 2.1-4.5 s late
+			if (many && r.chance(600)) { J td = J::arr(); J e = J::arr(); e.push((int) MSG_FEATURE); e.push((int) r.range(1, 8)); e.push((int) r.range(2100, 4500)); td.push(e); bus.set("type_delays", td); }
 			for (int i = 0, n = (int) r.below(5); i < n; i++) {
 				bus::Fault f; if (r.coin()) { f.kind = "delay"; f.a = r.range(1, 120); } else { f.kind = "chunk"; f.a = r.range(0, 12); f.b = r.range(1, 40); }
 				J e = J::arr(); e.push((int) r.range(1, 40)); e.push(bus::fault_json(f)); af.push(e);
